@@ -351,3 +351,18 @@ Definition xle (a b : X) : Prop :=
 Definition xeq (a b : X) : Prop :=
   match a, b with Fin x, Fin y => (x == y)%Q | PInf, PInf | NInf, NInf | NaN, NaN => True
   | _, _ => False end.
+
+(* ---- vocabulary for the pipeline theorems (Proofs/TDigestPipe.v): the sketch combiners as
+   combiners in the sense of Combiners/Lawful.v over the exact instance ---- *)
+(* the finite values of a list of inputs, each with the weight 1 that TDigest::add gives it *)
+Definition fin_inputs (m : list X) : list (Q * Q) :=
+  flat_map (fun v => match v with Fin x => [(x, 1%Q)] | _ => [] end) m.
+(* one estimate x for the inputs m: NaN when there is no finite input, else a rational between
+   the smallest and the largest finite input *)
+Definition est_in_range (m : list X) (x : X) : Prop :=
+  (fin_inputs m = [] /\ x = NaN) \/
+  (exists lo hi v, is_lo lo (fin_inputs m) /\ is_hi hi (fin_inputs m) /\ x = Fin v /\ (lo <= v <= hi)%Q).
+(* what ApproxQuantiles / ApproxMedian owe for the inputs m *)
+Definition aq_spec (qs : list X) (m : list X) (o : list X) : Prop :=
+  length o = length qs /\ forall x, In x o -> est_in_range m x.
+Definition am_spec (m : list X) (o : X) : Prop := est_in_range m o.
